@@ -152,6 +152,16 @@ void ParticleSwarm(const ObjectiveFunction f, const TasDREAM::DreamDomain inside
         f_constrained(state.particle_positions, state.cache_particle_fvals, state.cache_particle_inside);
         if (state.best_positions_initialized) {
             f_constrained(state.best_particle_positions, state.cache_best_particle_fvals, state.cache_best_particle_inside);
+            // the swarm best must be at least as good as every (re-evaluated) best known position
+            for (size_t i=0; i<num_particles; i++) {
+                if (state.cache_best_particle_inside[i] and (not state.cache_best_particle_inside[num_particles] or
+                    state.cache_best_particle_fvals[i] < state.cache_best_particle_fvals[num_particles])) {
+                    std::copy_n(state.best_particle_positions.begin() + i * num_dimensions, num_dimensions,
+                                state.best_particle_positions.begin() + num_particles * num_dimensions);
+                    state.cache_best_particle_fvals[num_particles] = state.cache_best_particle_fvals[i];
+                    state.cache_best_particle_inside[num_particles] = true;
+                }
+            }
         }
         state.cache_initialized = true;
     }
